@@ -38,6 +38,18 @@ func (fr *frame) baseEnv() *SpecEnv {
 	for k, v := range fr.lets {
 		env.vars[k] = v
 	}
+	// named locals / named results that live in cells
+	for v, val := range fr.vals {
+		if a, ok := v.(*ssa.Alloc); ok && a.Comment != "" && val.S != "" && val.L == nil {
+			if env.locals == nil {
+				env.locals = map[string]*Loc{}
+			}
+			t := a.Type().(*types.Pointer).Elem()
+			if _, dup := env.vars[a.Comment]; !dup {
+				env.locals[a.Comment] = &Loc{Ref: val.S, BaseT: t, T: t}
+			}
+		}
+	}
 	env.mem, env.old = fr.mem, fr.entry
 	return env
 }
